@@ -37,6 +37,14 @@ GLOBALS = {
     'char_class_table': 'ada::url_pattern_helpers::char_class_table',
 }
 
+COMP = '{%uU,%uU,%uU,%uU,%uU,%uU,%uU,%uU}'
+COMPARGS = 'X.protocol_end, X.username_end, X.host_start, X.host_end, X.port, X.pathname_start, X.search_start, X.hash_start'
+DEFAULTS = {
+    'url_components_default': '  { ada::url_components c{}; std::printf("static const struct url_components G_url_components_default = %s;\\n", %s); }' % (COMP, COMPARGS.replace('X', 'c')),
+    'url_aggregator_default': '  { ada::url_aggregator u{}; std::printf("static const struct url_aggregator G_url_aggregator_default = {{%%d,%%d,%%d,%%d}, {%%zu, {0}}, %s};\\n", (int)u.is_valid, (int)u.has_opaque_path, (int)u.host_type, (int)u.type, u.buffer.size(), %s); }' % (COMP, COMPARGS.replace('X', 'u.components')),
+    'url_default': '  { ada::url u{}; std::printf("static const struct url G_url_default = {{%d,%d,%d,%d}, {%d,{0,{0}}}, {%zu,{0}}, {%d,{0,{0}}}, {%d,{0,{0}}}, {%d,0}, {%zu,{0}}, {%zu,{0}}, {%zu,{0}}};\\n", (int)u.is_valid, (int)u.has_opaque_path, (int)u.host_type, (int)u.type, (int)u.host.has_value(), u.path.size(), (int)u.query.has_value(), (int)u.hash.has_value(), (int)u.port.has_value(), u.username.size(), u.password.size(), u.non_special_scheme.size()); }',
+}
+
 PRELUDE = r'''
 #include <cstdio>
 #include <array>
@@ -79,6 +87,9 @@ def generate(cfg, globals_needed, enums_needed, src=None, extra_cpp=''):
         return open(outp).read()
     lines = ['#include "%s"' % (src or '/repo/src/ada.cpp'), PRELUDE, 'int main() {']
     for name, q in sorted(globals_needed):
+        if q == '@default':
+            lines.append(DEFAULTS[name])
+            continue
         if name not in GLOBALS:
             raise Undecided('tabdump: global object %s (%s) is not in the closed list of dumpable data' % (name, q))
         ct = map_type(q)
@@ -94,7 +105,7 @@ def generate(cfg, globals_needed, enums_needed, src=None, extra_cpp=''):
     open(cpp, 'w').write('\n'.join(lines))
     fl = A.flags(cfg, src)
     fl = [f for f in fl if f != '-O2'] + ['-O0']
-    rc, out, err, _ = run(['g++'] + fl + ['-w', cpp, '-o', exe], timeout=600)
+    rc, out, err, _ = run(['g++'] + fl + ['-w', '-fno-access-control', cpp, '-o', exe], timeout=600)
     if rc != 0:
         raise Undecided('tabdump: g++ failed: ' + err[-3000:])
     rc, out, err, _ = run([exe], timeout=60)
